@@ -742,3 +742,27 @@ Proof.
   - simpl. pose proof (spec_step_tf ts o) as H. rewrite E in H. auto.
   - pose proof (spec_step_tf ts o) as H. rewrite E in H. simpl in H. rewrite <- H. apply IH.
 Qed.
+
+(* ---- masked points never reach an analysis: the unmasked views do not depend on the values stored at masked positions ---- *)
+(* two value lists that agree on every unmasked position (the masked positions may hold anything) *)
+Fixpoint agree_unmasked {A} (i : Z) (l1 l2 : list A) (m : dict) : Prop :=
+  match l1, l2 with
+  | [], [] => True
+  | x :: r, y :: s => (dget i m false = false -> x = y) /\ agree_unmasked (i + 1) r s m
+  | _, _ => False
+  end.
+
+Lemma unmasked_view_ignores_masked {A} (m : dict) : forall (l1 l2 : list A) i,
+  agree_unmasked i l1 l2 m -> view_from i l1 m false = view_from i l2 m false.
+Proof.
+  induction l1 as [|x r IH]; intros [|y s] i H; simpl in *; try contradiction; auto.
+  destruct H as [Hxy Hr]. destruct (dget i m false) eqn:E; simpl.
+  - apply IH; exact Hr.
+  - rewrite (Hxy eq_refl). f_equal. apply IH; exact Hr.
+Qed.
+
+Theorem masked_values_irrelevant (fs : list Q) (zs1 zs2 : list cplx) (m : dict) :
+  agree_unmasked 0 zs1 zs2 m ->
+  get_fs (mkDS fs zs1 m) (Some false) = get_fs (mkDS fs zs2 m) (Some false) /\
+  get_zs (mkDS fs zs1 m) (Some false) = get_zs (mkDS fs zs2 m) (Some false).
+Proof. intro H. split; [reflexivity|]. unfold get_zs. simpl. apply unmasked_view_ignores_masked; exact H. Qed.
